@@ -77,6 +77,15 @@ FRESH_FUNCS = {
 # kinds of abstract objects that are never the value None (library results -- kind "ext" -- and anything read
 # from the source -- SRC -- may be None)
 DEFINITE_KINDS = {"cont", "inst", "cls", "func", "bound", "mod", "glob", "attrs", "super", "extcls", "GS"}
+# dunder methods that python (or library code) invokes implicitly on an instance; they are analysed for every
+# instance that is created (see Analysis.implicit_dunders)
+EXPLICIT_DUNDERS = {"__init__", "__post_init__", "__call__"}
+UNSUPPORTED_DUNDERS = {"__new__", "__getattribute__", "__setattr__", "__delattr__", "__get__", "__set__", "__delete__", "__init_subclass__",
+                       "__class_getitem__", "__set_name__", "__prepare__", "__instancecheck__", "__subclasscheck__", "__mro_entries__"}
+BINARY_DUNDERS = {"__eq__", "__ne__", "__lt__", "__le__", "__gt__", "__ge__", "__add__", "__radd__", "__iadd__", "__sub__", "__rsub__", "__isub__",
+                  "__mul__", "__rmul__", "__imul__", "__truediv__", "__rtruediv__", "__floordiv__", "__mod__", "__rmod__", "__pow__", "__matmul__",
+                  "__and__", "__rand__", "__iand__", "__or__", "__ror__", "__ior__", "__xor__", "__rxor__", "__ixor__", "__lshift__", "__rshift__",
+                  "__neg__", "__pos__", "__invert__", "__abs__"}
 ITER_BUILTINS = {"zip", "enumerate", "map", "filter", "iter", "chain", "zip_strict", "zip_longest", "product", "islice", "partial"}
 
 
@@ -191,6 +200,7 @@ class Analysis:
         self.SRC = self.obj("SRC", "SRC", label="SRC")
         self.GS = self.obj("GS", "GS", label="GS")
         self.NONE = self.obj("NONE", "NONE", label="None")
+        self.EXC = self.obj("cont", "EXC", label="raised exceptions")
         self.alarms = {}
         self.sites = {}  # mutation site -> set of target labels (obligations)
         self.globals_mut = {}
@@ -215,6 +225,7 @@ class Analysis:
         self._modctx = {}
         self._glob_elems = {}
         self._late = {}
+        self.dunder_insts = defaultdict(set)
         self._load()
 
     # ---- program ----------------------------------------------------------------------------------
@@ -298,7 +309,7 @@ class Analysis:
             if len(cands) == 1 and not pyf.__code__.co_freevars:
                 fn = Func(pyf, cands[0], self.modules[pyf.__module__])
                 self.funcs[key] = fn
-        if fn is None:
+        if fn is None and not pyf.__code__.co_filename.startswith("<"):
             self.flag(None, f"repository function without analysable source: {pyf.__module__}.{pyf.__qualname__}")
         self._late[key] = fn
         return fn
@@ -693,6 +704,11 @@ class Analysis:
                 k, v = self.class_attr(o.py, name)
                 if k is not None:
                     out |= self.bind(v, o, k, name)
+                for kk in o.py.__mro__:  # values stored on the class objects by analysed code (Cls.attr = v)
+                    co = self.objs.get(("cls", f"{kk.__module__}.{kk.__qualname__}"))
+                    if co is not None and (co, name) in self.F:
+                        out |= self.F[(co, name)]
+                out |= self.F[(o, "dunder:__getattr__")]
             elif o.kind == "cls":
                 try:
                     v = inspect.getattr_static(o.py, name)
@@ -759,6 +775,11 @@ class Analysis:
             return {fo}
         if isinstance(f, type):
             return self.wrap_py(f, name)
+        if isinstance(f, (types.WrapperDescriptorType, types.MethodDescriptorType, types.BuiltinFunctionType)) and selfobj.kind in ("inst", "cont"):
+            # a method inherited from a builtin base class (dict.__init__, list.append, Exception.__init__, ...)
+            fo = self.obj("bound", (id(f), selfobj.key, selfobj.kind, "builtin"), f, f"bound {owner.__name__}.{name}")
+            fo.self_ = selfobj
+            return {fo}
         # any other class attribute (None, a constant, a class-level container or object): class-level state
         return self.wrap_py(f, f"{owner.__qualname__}.{name}")
 
@@ -893,6 +914,13 @@ class Analysis:
                     for a in self.F.attrs_of(o):
                         if isinstance(a, str) and a.startswith("k:"):
                             out |= self.F[(o, a)]
+                elif o.kind == "inst":
+                    # an instance whose class implements the container protocol itself: what __getitem__ /
+                    # __next__ return and what the iterator returned by __iter__ yields
+                    out |= self.F[(o, "dunder:__getitem__")] | self.F[(o, "dunder:__next__")] | self.F[(o, "dunder:__missing__")]
+                    it = self.F[(o, "dunder:__iter__")]
+                    if it:
+                        out |= self.elements({x for x in it if x is not o})
         return out
 
     def e_Subscript(self, node, ctx):
@@ -992,10 +1020,16 @@ class Analysis:
     def e_BinOp(self, node, ctx):
         a = self.ev(node.left, ctx)
         b = self.ev(node.right, ctx)
-        conts = {o for o in a | b if o.kind in ("cont", "SRC", "GS", "inst", "ext")}
+        conts = {o for o in a | b if o.kind in ("cont", "SRC", "GS", "inst", "ext", "glob")}
+        out = set()
+        for o in a | b:
+            if o.kind == "inst":  # operator implemented by the class: whatever its operator methods return
+                for nm in self.F.attrs_of(o):
+                    if isinstance(nm, str) and nm.startswith("dunder:") and nm[7:] in BINARY_DUNDERS:
+                        out |= self.F[(o, nm)]
         if conts:
-            return self.new_cont(node, self.elements(conts), "binop")
-        return set()
+            return out | self.new_cont(node, self.elements(conts), "binop")
+        return out
 
     def e_Compare(self, node, ctx):
         self.ev(node.left, ctx)
@@ -1008,6 +1042,11 @@ class Analysis:
         return set()
 
     def e_JoinedStr(self, node, ctx):
+        for v in node.values:  # the embedded expressions ARE evaluated (calls, allocations); the result is a str
+            if isinstance(v, ast.FormattedValue):
+                self.ev(v.value, ctx)
+                if v.format_spec is not None:
+                    self.ev(v.format_spec, ctx)
         return set()
 
     def e_Lambda(self, node, ctx):
@@ -1039,11 +1078,12 @@ class Analysis:
     def e_Yield(self, node, ctx):
         if node.value is not None:
             self.add(self.Y[ctx.key], self.ev(node.value, ctx))
-        return set()
+        # the value of the yield expression: whatever is sent into the generator object of this context
+        return set(self.F[(self.obj("cont", (ctx.key, "gen"), None, f"generator of {ctx.func.qual}"), "sent")])
 
     def e_YieldFrom(self, node, ctx):
         self.add(self.Y[ctx.key], self.elements(self.ev(node.value, ctx)))
-        return set()
+        return set(self.F[(self.obj("cont", (ctx.key, "gen"), None, f"generator of {ctx.func.qual}"), "sent")])
 
     def e_NamedExpr(self, node, ctx):
         v = self.ev(node.value, ctx)
@@ -1204,6 +1244,8 @@ class Analysis:
 
     def cont_method(self, o, name, node, args, kwargs, A):
         el = self.F[(o, "[]")]
+        if any(a.kind in ("func", "bound") or (a.kind == "cont" and a.key[-1] == "partial") for a in A):
+            self.invoke_callbacks(A | {o}, node, self.cur)  # xs.sort(key=f), ...
         if name in ("setdefault", "__setitem__", "insert"):
             # first argument is a key / position, not an element
             self.mutate({o}, node, f".{name}()")
@@ -1212,6 +1254,9 @@ class Analysis:
                 rest |= s_
             self.add(el, rest)
             return self.elements({o}) if name == "setdefault" else set()
+        if name in ("send", "throw") and o.kind == "cont" and o.key[-1] == "gen":
+            self.add(self.F[(o, "sent")], A)
+            return self.elements({o})
         if name in ("append", "add"):
             self.mutate({o}, node, f".{name}()")
             self.add(el, A)
@@ -1319,10 +1364,21 @@ class Analysis:
                 py = py.func
             return self.lib_call(getattr(py, "__name__", "?"), py, node, args, kwargs, star_kw, ctx)
         if c.kind == "bound":
-            fn = self.func_of(c.py)
+            fn = self.func_of(c.py) if isinstance(c.py, (types.FunctionType, classmethod, staticmethod)) else None
             selfset = {c.self_}
             if fn is not None:
                 return self.call_func(fn, [selfset] + self.argsets(args), {k: v for k, (_, v) in kwargs.items()}, node, ctx, [(None, selfset)] + args, kwargs, star_kw)
+            if c.key[-1] == "builtin":
+                nm = getattr(c.py, "__name__", "?")
+                A = self.all_args(args, kwargs, star_kw)
+                if nm == "__init__":
+                    # dict.__init__(pairs) / list.__init__(iterable) / Exception.__init__(*args): the elements
+                    el = self.elements(A)
+                    self.add(self.F[(c.self_, "[]")], el | self.pair_values(el) | {x for x in A if x.kind in ("SRC", "GS")})
+                    for kk, (_, s_) in kwargs.items():
+                        self.add(self.F[(c.self_, "[]")], s_)
+                    return set()
+                return self.cont_method(c.self_, nm, node, args, kwargs, A)
             return set()
         if c.kind == "cls":
             return self.instantiate(c, node, args, kwargs, star_kw, ctx)
@@ -1362,9 +1418,19 @@ class Analysis:
             return self.lib_call("super", None, node, args, kwargs, star_kw, ctx)
         if not mod.startswith(self.pkg):
             name = pycls.__name__
-            cb_results = self.invoke_callbacks(A, node, ctx)
             if issubclass(pycls, BaseException):
+                # a library exception object carries its arguments (e.args)
+                r = self.new_ext(node, A, through=False)
+                (e,) = r
+                self.add(self.F[(e, "[]")], A)
+                return r
+            if pycls in (int, float, str, bool, bytes, type, object):
+                if pycls is type and len(args) == 1:
+                    return self.classes_of(args[0][1])
                 return set()
+            # (assumption: a library CONSTRUCTOR may call functions / bound methods / partials it is given, but
+            # does not call other callable instances -- e.g. filter objects kept in a namespace)
+            cb_results = self.invoke_callbacks(A, node, ctx, include_inst=name in ITER_BUILTINS or mod == "itertools")
             if name in COPYING_BUILTINS or pycls in (list, tuple, set, frozenset, dict):
                 pos_el = set()
                 for _, s_ in args:
@@ -1393,10 +1459,6 @@ class Analysis:
                                 if isinstance(a, str) and a.startswith("k:"):
                                     self.add(self.F[(o, a)], self.F[(src, a)])
                 return r
-            if pycls in (int, float, str, bool, bytes, type, object):
-                if pycls is type and len(args) == 1:
-                    return self.classes_of(args[0][1])
-                return set()
             if name in ("zip", "zip_longest"):
                 fill = ((kwargs.get("fillvalue") or (None, {self.NONE}))[1]) if name == "zip_longest" else set()
                 return self.rows(node, [self.elements(s_) | fill for _, s_ in args], name)
@@ -1416,6 +1478,32 @@ class Analysis:
             (o,) = r
             for kk, (_, sv) in kwargs.items():
                 self.add(self.F[(o, kk)], sv)
+            return r
+        if issubclass(pycls, tuple) and hasattr(pycls, "_fields") and "__init__" not in pycls.__dict__:
+            # named tuple: an immutable tuple whose positions also have names
+            fields = list(pycls._fields)
+            r = self.new_cont(node, set(), "namedtuple")
+            (t,) = r
+            t.py = len(fields)
+            vals = {}
+            for f_, (an, s_) in zip(fields, args):
+                if an == "*":
+                    for g in fields:
+                        vals.setdefault(g, set()).update(s_)
+                    break
+                vals.setdefault(f_, set()).update(s_)
+            for kk, (_, s_) in kwargs.items():
+                vals.setdefault(kk, set()).update(s_)
+            for g in fields:
+                if star_kw:
+                    vals.setdefault(g, set()).update(self.elements(star_kw) | {x for x in star_kw if x.kind not in ("cont", "attrs")})
+                if g not in vals and g in getattr(pycls, "_field_defaults", {}):
+                    vals[g] = self.wrap_py(pycls._field_defaults[g], g)
+            for i, g in enumerate(fields):
+                v_ = vals.get(g, set())
+                self.add(self.F[(t, g)], v_)
+                self.add(self.F[(t, ("pos", i))], v_)
+                self.add(self.F[(t, "[]")], v_)
             return r
         o = self.obj("inst", (pycls.__module__ + "." + pycls.__qualname__, self.cur.key[0], getattr(node, "lineno", 0), getattr(node, "col_offset", 0)), pycls, f"{pycls.__name__}@{self.site(node)[0]}:{getattr(node, 'lineno', 0)}")
         k, init = self.class_attr(pycls, "__init__")
@@ -1438,26 +1526,86 @@ class Analysis:
                         self.add(self.F[(o, n)], self.F[(d.py, n)] | self.F[(d, "k:" + n)])
                     else:
                         self.add(self.F[(o, n)], {d} | self.elements({d}))
+            import dataclasses as _dc
+
+            passed = set(names[: len(args)]) | set(kwargs)
+            for fld in _dc.fields(pycls):
+                if fld.name in passed and not star_kw and not any(an == "*" for an, _ in args):
+                    continue
+                if fld.default is not _dc.MISSING:
+                    self.add(self.F[(o, fld.name)], self.wrap_py(fld.default, f"{pycls.__name__}.{fld.name}"))
+                elif fld.default_factory is not _dc.MISSING:
+                    fac = fld.default_factory
+                    if fac in (list, dict, set, tuple, frozenset):
+                        # one fresh container per instance
+                        self.add(self.F[(o, fld.name)], {self.obj("cont", (o.key, "field", fld.name), None, f"{fac.__name__}@{o.label}.{fld.name}")})
+                    else:
+                        for fo in self.wrap_py(fac, fld.name):
+                            self.add(self.F[(o, fld.name)], self.apply(fo, node, [], {}, set(), ctx))
             pi = getattr(pycls, "__post_init__", None)
             fn2 = self.func_of(pi) if pi else None
             if fn2 is not None:
                 self.call_func(fn2, [{o}], {}, node, ctx)
         else:
             # builtin-derived repo class (dict/list subclass): constructor argument supplies the elements
-            self.add(self.F[(o, "[]")], self.elements(A) | self.elements(self.elements(A)))
+            el = self.elements(A)
+            if issubclass(pycls, dict):
+                self.add(self.F[(o, "[]")], self.pair_values(el) | {x for x in A if x.kind in ("SRC", "GS")})
+                for kk, (_, s_) in kwargs.items():
+                    self.add(self.F[(o, "[]")], s_)
+            else:
+                self.add(self.F[(o, "[]")], el | {x for x in A if x.kind in ("SRC", "GS")})
+        self.implicit_dunders(o, node, ctx)
         return {o}
+
+    def implicit_dunders(self, o, node, ctx):
+        """Python and library code invoke special methods without a visible call (str()/format/logging ->
+        __str__/__repr__, sorting and == -> comparisons, len(), iteration, subscripts, `with`, hashing, ...).
+        Instead of finding every such place, every special method that the class of a NEW instance defines in
+        analysed code is analysed right away, once per instance, with `self` = the instance, the other operand
+        of a binary method = any instance whose class defines the same method, and other parameters unknown
+        scalars.  Its effects are thus accounted for whether or not it is ever invoked, and what it returns is
+        kept on the instance (field "dunder:<name>") for the constructs that consume it (subscript, iteration,
+        `with`, operators, attribute fallback).  Special methods this scheme cannot express are flagged."""
+        seen = set()
+        for k in o.py.__mro__:
+            if not getattr(k, "__module__", "").startswith(self.pkg):
+                continue
+            if type(k).__module__.startswith(self.pkg):
+                self.flag(node, f"metaclass {type(k).__name__}")
+            for nm, v in list(k.__dict__.items()):
+                if not (nm.startswith("__") and nm.endswith("__")) or nm in seen or nm in EXPLICIT_DUNDERS:
+                    continue
+                if isinstance(v, (staticmethod, classmethod)):
+                    v = v.__func__
+                if not isinstance(v, types.FunctionType):
+                    continue
+                seen.add(nm)
+                if v.__code__.co_filename.startswith("<"):
+                    continue  # synthesised by dataclasses / namedtuple: reads and compares fields only
+                if nm in UNSUPPORTED_DUNDERS:
+                    self.flag(node, f"class {k.__name__} defines {nm}")
+                    continue
+                fn = self.func_of(v)
+                if fn is None:
+                    continue
+                if nm in BINARY_DUNDERS:
+                    self.dunder_insts[nm].add(o)
+                a = fn.node.args
+                npos = len(a.posonlyargs + a.args)
+                other = set(self.dunder_insts[nm]) if nm in BINARY_DUNDERS else set()
+                r = self.call_func(fn, [{o}] + [other] * max(0, npos - 1), {}, node, ctx)
+                self.add(self.F[(o, "dunder:" + nm)], r)
 
     def lib_call(self, name, py, node, args, kwargs, star_kw, ctx):
         A = self.all_args(args, kwargs, star_kw)
         if name in ("exec", "eval", "globals", "locals", "__import__", "__build_class__"):
             self.flag(node, f"{name}()")
             return set()
-        # analysed callables handed to library code (key=, map(f, ..), callbacks) may be invoked by it, with
-        # anything reachable from the other arguments; what they return may end up in the library's result
-        cb_results = self.invoke_callbacks(A, node, ctx)
         if name in PURE_BUILTINS:
-            return set()
+            return set()  # catalogue: these neither keep, return, mutate nor CALL their arguments
         if name in ("min", "max"):
+            self.invoke_callbacks(A, node, ctx)
             # one of the arguments, or one of the elements of the (single) iterable argument
             out = set()
             for _, s_ in args:
@@ -1488,8 +1636,11 @@ class Analysis:
             self.mutate(deep, node, f"{name}(…)")
             return self.new_ext(node, set(), through=False)
         if name in FRESH_FUNCS:
-            self.trusted_fresh.add(name)
+            self.trusted_fresh.add(name)  # catalogue: new object; arguments neither kept, mutated nor called
             return self.new_ext(node, set(), through=False)
+        # analysed callables handed to any other library code (key=, map(f, ..), callbacks) may be invoked by it,
+        # with anything reachable from the other arguments; what they return may end up in the library's result
+        cb_results = self.invoke_callbacks(A, node, ctx)
         if name == "deepcopy":
             return self.new_cont(node, set(), "deepcopy")
         if name == "copy" and py is not None and getattr(py, "__module__", "") == "copy":
@@ -1575,8 +1726,8 @@ class Analysis:
             return k is not None and k.__module__.startswith(self.pkg)
         return a.kind == "cont" and a.key[-1] == "partial"
 
-    def invoke_callbacks(self, A, node, ctx):
-        cbs = [a for a in A if self.is_analysed_callable(a)]
+    def invoke_callbacks(self, A, node, ctx, include_inst=True):
+        cbs = [a for a in A if self.is_analysed_callable(a) and (include_inst or a.kind != "inst")]
         if not cbs:
             return set()
         data = {a for a in A if a not in cbs}
@@ -1801,12 +1952,36 @@ class Analysis:
             self.assign(target.value, val, ctx, node)
 
     def run_body(self, stmts, ctx):
+        """Analyse a block; returns True when the block certainly does not complete normally (its last reachable
+        statement is a return / raise / continue / break, or an `if` all of whose live branches end that way):
+        the statements after such a statement can never execute and are skipped."""
         saved = dict(self.alias)
+        ended = False
         for s in stmts:
-            self.stmt(s, ctx)
+            if self.stmt(s, ctx):
+                ended = True
+                break
         self.alias = saved  # a post-loop alias is valid until the end of the block that contains the loop
+        return ended
 
     def stmt(self, s, ctx):
+        """-> True iff control certainly does not continue with the next statement of the same block"""
+        if isinstance(s, (ast.Return, ast.Raise, ast.Continue, ast.Break)):
+            self.stmt_(s, ctx)
+            return True
+        if isinstance(s, ast.If):
+            c = self.const(s.test, ctx)
+            self.ev(s.test, ctx)
+            e1 = e2 = True
+            if c is ... or c:
+                e1 = self.run_body(s.body, ctx)
+            if c is ... or not c:
+                e2 = self.run_body(s.orelse, ctx)
+            return e1 and e2
+        self.stmt_(s, ctx)
+        return False
+
+    def stmt_(self, s, ctx):
         if isinstance(s, ast.Expr):
             self.ev(s.value, ctx)
         elif isinstance(s, ast.Assign):
@@ -1833,7 +2008,19 @@ class Analysis:
                             if o.kind == "cont":
                                 self.add(self.F[(o, "[]")], self.elements(v))
             else:
-                self.assign(s.target, v | self.elements(v), ctx, s)
+                # `o.f += rhs` / `o[k] += rhs`: the object currently stored there is updated IN PLACE when it is a
+                # container (list += iterable, set |= ..., dict |= ...), and the result is stored back
+                load = ast.copy_location(ast.Attribute(value=s.target.value, attr=s.target.attr, ctx=ast.Load()), s.target) if isinstance(s.target, ast.Attribute) \
+                    else ast.copy_location(ast.Subscript(value=s.target.value, slice=s.target.slice, ctx=ast.Load()), s.target) if isinstance(s.target, ast.Subscript) else None
+                cur = self.ev(load, ctx) if load is not None else set()
+                conts = {o for o in cur if o.kind in ("cont", "SRC", "GS", "ext", "inst", "glob")}
+                if conts and isinstance(s.op, (ast.Add, ast.BitOr, ast.BitAnd, ast.Sub, ast.BitXor, ast.Mult)):
+                    if v or isinstance(s.value, (ast.List, ast.Set, ast.Dict, ast.ListComp, ast.SetComp, ast.DictComp, ast.Tuple)):
+                        self.mutate(conts, s, "augmented assignment")
+                        for o in conts:
+                            if o.kind in ("cont", "inst", "ext", "glob"):
+                                self.add(self.F[(o, "[]")], self.elements(v))
+                self.assign(s.target, cur | v | self.elements(v), ctx, s)
         elif isinstance(s, ast.Delete):
             for t in s.targets:
                 if isinstance(t, ast.Attribute):
@@ -1846,13 +2033,6 @@ class Analysis:
                 self.add(self.R[ctx.key], self.ev(s.value, ctx))
             else:
                 self.add(self.R[ctx.key], {self.NONE})
-        elif isinstance(s, ast.If):
-            c = self.const(s.test, ctx)
-            self.ev(s.test, ctx)
-            if c is ... or c:
-                self.run_body(s.body, ctx)
-            if c is ... or not c:
-                self.run_body(s.orelse, ctx)
         elif isinstance(s, (ast.For, ast.AsyncFor)):
             it = self.ev(s.iter, ctx)
             self.assign(s.target, self.elements(it), ctx, s)
@@ -1866,11 +2046,24 @@ class Analysis:
             for it in s.items:
                 v = self.ev(it.context_expr, ctx)
                 if it.optional_vars is not None:
-                    self.assign(it.optional_vars, v | self.elements(v), ctx, s)
+                    # library context managers: themselves or what they hold; analysed ones: what __enter__
+                    # returned (__enter__ / __exit__ run as implicit dunders of the instance)
+                    bound = {o for o in v if o.kind != "inst"}
+                    bound |= self.elements(bound)
+                    for o in v:
+                        if o.kind == "inst":
+                            bound |= self.F[(o, "dunder:__enter__")] | self.F[(o, "dunder:__aenter__")]
+                            if not any(hasattr(o.py, m) for m in ("__enter__", "__aenter__")):
+                                bound.add(o)
+                    self.assign(it.optional_vars, bound, ctx, s)
             self.run_body(s.body, ctx)
         elif isinstance(s, ast.Try):
             self.run_body(s.body, ctx)
             for h in s.handlers:
+                if h.name:
+                    # any exception object raised anywhere in analysed code may arrive here (exceptions raised
+                    # by library code carry no analysed objects: assumption)
+                    self.add(self.V[(ctx.key, h.name)], self.F[(self.EXC, "[]")])
                 self.run_body(h.body, ctx)
             self.run_body(s.orelse, ctx)
             self.run_body(s.finalbody, ctx)
@@ -1900,7 +2093,13 @@ class Analysis:
         elif isinstance(s, (ast.Raise, ast.Assert)):
             for c in ast.iter_child_nodes(s):
                 if isinstance(c, ast.expr):
-                    self.ev(c, ctx)
+                    v = self.ev(c, ctx)
+                    if isinstance(s, ast.Raise):
+                        # `raise Cls` instantiates the class without arguments
+                        for o in list(v):
+                            if o.kind == "cls" and getattr(o.py, "__module__", "").startswith(self.pkg):
+                                v = v | self.instantiate(o, s, [], {}, set(), ctx)
+                        self.add(self.F[(self.EXC, "[]")], {o for o in v if o.kind in ("inst", "ext", "SRC", "GS", "cont")})
         elif isinstance(s, ast.Match):
             self.ev(s.subject, ctx)
             for c in s.cases:
@@ -1918,11 +2117,12 @@ class Analysis:
 
     def _reset(self):
         self.V.clear(); self.F.clear(); self.R.clear(); self.Y.clear()
-        keep = {k: v for k, v in self.objs.items() if k[0] in ("SRC", "GS", "NONE") or (k[0] == "inst" and isinstance(k[1], tuple) and k[1][-1] == "root")}
+        keep = {k: v for k, v in self.objs.items()  if k[0] in ("SRC", "GS", "NONE") or k == ("cont", "EXC") or (k[0] == "inst" and isinstance(k[1], tuple) and k[1][-1] == "root")}
         self.objs = keep
         self.ctxs.clear(); self.alarms.clear(); self.sites.clear(); self.globals_mut.clear()
         self.unknown_calls.clear(); self.cut_hits.clear(); self.repo_calls.clear(); self.strong_reads.clear()
         self.unsupported.clear()
+        self.dunder_insts.clear()
         self.changed = True
 
     def flag(self, node, reason):
@@ -1988,6 +2188,10 @@ class Analysis:
             self.cur = root_ctx
             for fn, pos, kw in self.roots:
                 self.call_func(fn, pos, kw, None, None)
+                for s_ in pos:
+                    for o in s_:
+                        if o.kind == "inst":
+                            self.implicit_dunders(o, None, None)
             for ckey in list(self.ctxs):
                 c = self.ctxs[ckey]
                 self.cur = c
